@@ -41,12 +41,32 @@ struct Frac
         return s (n) + "/" + s (d);
     }
 };
-inline Frac operator+ (Frac a, Frac b) { return Frac (addc (mulc (a.n, b.d), mulc (b.n, a.d)), mulc (a.d, b.d)); }
+// Reduce by common factors BEFORE multiplying (same values, far fewer 128-bit overflows: two dyadic literals such as M_PI
+// with denominators 2^48 add to a denominator 2^48, not 2^96).
+inline Frac operator+ (Frac a, Frac b)
+{
+    I128 g = gcd128 (a.d, b.d); if (g == 0) g = 1;
+    I128 bd = b.d / g, ad = a.d / g;
+    return Frac (addc (mulc (a.n, bd), mulc (b.n, ad)), mulc (ad, b.d));
+}
 inline Frac operator- (Frac a) { return Frac (-a.n, a.d); }
 inline Frac operator- (Frac a, Frac b) { return a + (-b); }
-inline Frac operator* (Frac a, Frac b) { return Frac (mulc (a.n, b.n), mulc (a.d, b.d)); }
-inline Frac operator/ (Frac a, Frac b) { return b.n == 0 ? Frac () : Frac (mulc (a.n, b.d), mulc (a.d, b.n)); }
-inline bool operator< (Frac a, Frac b) { return mulc (a.n, b.d) < mulc (b.n, a.d); }
+inline Frac operator* (Frac a, Frac b)
+{
+    I128 g1 = gcd128 (a.n, b.d), g2 = gcd128 (b.n, a.d); if (g1 == 0) g1 = 1; if (g2 == 0) g2 = 1;
+    return Frac (mulc (a.n / g1, b.n / g2), mulc (a.d / g2, b.d / g1));
+}
+inline Frac operator/ (Frac a, Frac b)
+{
+    if (b.n == 0) return Frac ();
+    I128 g1 = gcd128 (a.n, b.n), g2 = gcd128 (a.d, b.d); if (g1 == 0) g1 = 1; if (g2 == 0) g2 = 1;
+    return Frac (mulc (a.n / g1, b.d / g2), mulc (a.d / g2, b.n / g1));
+}
+inline bool operator< (Frac a, Frac b)
+{
+    I128 g = gcd128 (a.d, b.d); if (g == 0) g = 1;
+    return mulc (a.n, b.d / g) < mulc (b.n, a.d / g);
+}
 inline bool operator> (Frac a, Frac b) { return b < a; }
 inline bool operator<= (Frac a, Frac b) { return !(b < a); }
 inline bool operator>= (Frac a, Frac b) { return !(a < b); }
